@@ -918,7 +918,8 @@ class CoopExecutor:
         self._queue.append((f, fn, args, kwargs))
         self.submitted += 1
         s.emit('ExecSubmit', stage=self.name, task=_task_name(fn),
-               qlen=len(self._queue), inflight=self.submitted - self.completed)
+               qlen=len(self._queue), inflight=self.submitted - self.completed,
+               xid=_task_xid(fn))
         if self._idle > 0:
             # an idle worker will pick it up
             pass
@@ -950,12 +951,12 @@ class CoopExecutor:
             except BaseException as e:  # noqa - as concurrent.futures does
                 self.completed += 1
                 s.emit('TaskEnd', stage=self.name, task=_task_name(fn),
-                       ok=False)
+                       ok=False, xid=_task_xid(fn))
                 f._finish(exception=e)
             else:
                 self.completed += 1
                 s.emit('TaskEnd', stage=self.name, task=_task_name(fn),
-                       ok=True)
+                       ok=True, xid=_task_xid(fn))
                 f._finish(result=r)
 
     def shutdown(self, wait=True, cancel_futures=False):
@@ -965,6 +966,11 @@ class CoopExecutor:
         if wait:
             for st in list(self._workers):
                 s.block(lambda st=st: st.finished, f'join:{st.name}')
+
+
+def _task_xid(fn):
+    x = getattr(fn, 'transfer_id', None)
+    return x if isinstance(x, int) else -1
 
 
 def _task_name(fn):
